@@ -388,9 +388,20 @@ func (ra *regionAnalysis) scan(fn *ssa.Function) {
 				}
 				if sc := c.StaticCallee(); sc != nil && P.Funcs[funcKey(sc)] != sc {
 					// library function
-					switch externName(sc) {
-					case "sort.Strings":
-						ra.write(fn, ra.get(c.Args[0]))
+					en := externName(sc)
+					if strings.HasPrefix(en, "sort.") || (!externPure(en) && externEffects(en) == nil) {
+						// a sorting function, or a library function without a model:
+						// it may write the elements of any slice it is handed (also
+						// one boxed in an interface value, as for sort.Slice)
+						for _, a := range c.Args {
+							v := a
+							if mi, ok := v.(*ssa.MakeInterface); ok {
+								v = mi.X
+							}
+							if isSeq(v.Type()) {
+								ra.write(fn, ra.get(v))
+							}
+						}
 					}
 					if isSeq(x.Type()) {
 						ra.add(x, "fresh:"+funcKey(fn))
